@@ -143,7 +143,8 @@ def _check(prop, tier, jobs, verbose, seed, t0, evid_path):
     # vacuity: every contract must have reached at least one normal end (unless it says otherwise)
     for key, cv in covers.items():
         c = S.CONTRACTS[key]
-        if cv["normal"] == 0 and not getattr(c, "expect_no_normal_exit", False) and key not in degraded:
+        has_refuted = any(r["key"] == key for r, ob in refuted)
+        if cv["normal"] == 0 and not getattr(c, "expect_no_normal_exit", False) and key not in degraded and not has_refuted:
             faults.append("vacuity: contract %s reached no normal exit (contradictory requires?)" % key)
     if canaries["other"]:
         faults.append("vacuity canary: %d unit(s) could not refute False" % canaries["other"])
